@@ -78,6 +78,7 @@ class HGen:
         self.tier = tier
         self.dg = gen.DeclGen(rng, max_depth=1 if tier == "quick" else 2)
         self.vg = gen.ValGen(rng)
+        self.ctx = make_ctx()
         self.n = 0
 
     def fresh(self, p="K"):
@@ -106,8 +107,8 @@ class HGen:
         e = {"e": "field", "decl": d, "kw": None, "eq": None}
         if rng.random() < 0.3:
             e["annOnly"] = True     # spelled `name: F(...)` with no assignment
-        if not allow_default or d["k"] in NO_DEFAULT_KINDS:
-            return e
+        if not allow_default or d["k"] in NO_DEFAULT_KINDS or '"k": "struct"' in json.dumps(d):
+            return e     # defaults that are / contain Structure instances are out of scope
         r = rng.random()
         if r < 0.55:
             return e
@@ -116,6 +117,8 @@ class HGen:
             return e
         if isinstance(v, dict) and "o" in v:
             return e
+        # the default as Python holds it (set / dict literals collapse ==-equal members)
+        v = dump.canon(dump.dump_value(dump.load_value(v, self.ctx), self.ctx))
         if r < 0.78 and d["k"] in KW_DEFAULT_KINDS:
             e["kw"] = self.dflt_of(v)
         elif r < 0.92:
